@@ -107,6 +107,8 @@ pub struct EndpointOpts {
     pub reverse_proxy: Option<(SocketAddr, String, String)>,
     /// tcp_connections_timeout (idle timeout of tunnels); None = the default
     pub tcp_timeout: Option<Duration>,
+    /// ICMP forwarding bound to this interface; None = not configured
+    pub icmp_interface: Option<String>,
 }
 
 impl Default for EndpointOpts {
@@ -124,6 +126,7 @@ impl Default for EndpointOpts {
             dual_stack: false,
             reverse_proxy: None,
             tcp_timeout: None,
+            icmp_interface: None,
         }
     }
 }
@@ -187,6 +190,9 @@ pub fn start_endpoint(rt: &tokio::runtime::Runtime, o: &EndpointOpts) -> Endpoin
         }
         if let Some(t) = o.tcp_timeout {
             b = b.tcp_connections_timeout(t);
+        }
+        if let Some(i) = &o.icmp_interface {
+            b = b.icmp(trusttunnel::settings::IcmpSettings::builder().interface_name(i).request_timeout(Duration::from_secs(3)).build().expect("icmp settings"));
         }
         if let Some(r) = &o.rules {
             b = b.rules_engine(trusttunnel::rules::RulesEngine::from_config(r.clone()));
